@@ -161,3 +161,16 @@ Theorem C06_app_sites_routed : forall s, In s C06Sites.app_sites ->
   end.
 Proof. exact c06_app_sites_routed. Qed.
 Print Assumptions C06_app_sites_routed.
+
+(* ---- The static web pages: every `X.joinpath(arg)` (and every file-system call) of radicale/httputils.py and
+   radicale/web/NAME.py, REGENERATED on every run.  A request-derived component must have passed
+   is_safe_filesystem_path_component with no transformation in between (a decoding step after the check is PUnknown). *)
+Theorem C06_web_sites_checked : sites_ok C06Sites.web_calls C06Sites.web_sites = true.
+Proof. exact Gen_c06_web_sites_ok. Qed.
+Print Assumptions C06_web_sites_checked.
+
+Theorem C06_web_sites_confined : forall s, In s C06Sites.web_sites ->
+  forall c, den C06Sites.web_calls (s_prov s) (VC c) ->
+  is_safe_path_component (snd c) = true /\ (fst c = true -> is_safe_filesystem_path_component (snd c) = true).
+Proof. exact c06_web_sites_confined. Qed.
+Print Assumptions C06_web_sites_confined.
